@@ -223,3 +223,71 @@ Example C12_example_objectdb_empty_scope :
   exists d', save_db is_ascii_digit d = Some d' /\ load_db is_ascii_digit d' = Some d.
 Proof. exact (conj eq_refl (ex_intro _ _ (conj eq_refl eq_refl))). Qed.
 Print Assumptions C12_example_objectdb_empty_scope.
+
+(* ---- lifted over any number of sessions (coq/C12/Sessions.v) ---- *)
+From RopeVerif.C12 Require Import Sessions SessionsProofs.
+
+(* Any number of sessions, each opening what the previous close wrote, doing / undoing / redoing any
+   changes and closing again: the file written by the last close is the file the project that was
+   never closed would write, for every ignore predicate and every max_history_items, from every
+   history [within] the limit (|undo| + |redo| <= limit: what History maintains from an empty
+   history on, C12_sessions_from_empty), and for every way [stamp] a redo re-stamps the change it
+   performs again (ChangeSet.do sets time.time()). No session fails to load (the result is Some). *)
+Theorem C12_sessions_lose_nothing :
+  forall (ign : text -> bool) limit (stamp : change -> change) ss h,
+    within limit h ->
+    sessions ign limit stamp (close true limit h) ss = Some (close true limit (live ign limit stamp h (concat ss))).
+Proof. exact sessions_lose_nothing. Qed.
+Print Assumptions C12_sessions_lose_nothing.
+
+(* ... and the next open has exactly the undo and redo lists of the never-closed project. *)
+Theorem C12_sessions_reopen :
+  forall (ign : text -> bool) limit (stamp : change -> change) ss h d,
+    within limit h ->
+    sessions ign limit stamp (close true limit h) ss = Some d ->
+    reopen true d = Some (live ign limit stamp h (concat ss)).
+Proof. exact sessions_reopen. Qed.
+Print Assumptions C12_sessions_reopen.
+
+(* The hypothesis is met by every history grown from the empty one, across any sessions. *)
+Theorem C12_sessions_from_empty :
+  forall (ign : text -> bool) limit (stamp : change -> change) ss,
+    exists d, sessions ign limit stamp (close true limit empty_hist) ss = Some d /\
+              reopen true d = Some (live ign limit stamp empty_hist (concat ss)) /\
+              within limit (live ign limit stamp empty_hist (concat ss)).
+Proof. exact sessions_from_empty. Qed.
+Print Assumptions C12_sessions_from_empty.
+
+(* Without the invariant (a saved history longer than the limit, e.g. max_history_items lowered
+   between sessions): sessions that only do changes still end with the never-closed project's file,
+   because trimming at close commutes with the trimming History.do performs. *)
+Theorem C12_do_sessions_lose_nothing :
+  forall (ign : text -> bool) limit (stamp : change -> change) ss h,
+    forallb (forallb only_do) ss = true ->
+    sessions ign limit stamp (close true limit h) ss = Some (close true limit (live ign limit stamp h (concat ss))).
+Proof. exact do_sessions_lose_nothing. Qed.
+Print Assumptions C12_do_sessions_lose_nothing.
+
+(* The invariant cannot be dropped for redo: History.redo does not trim, so from a history outside
+   the invariant a redo leaves a live undo list that the next close shortens. (Not reachable from an
+   empty history with a fixed limit - C12_sessions_from_empty - hence no finding.) *)
+Theorem C12_redo_beyond_limit_needs_invariant :
+  exists (ign : text -> bool) limit h ops h',
+    ~ within limit h /\
+    reopen true (close true limit (live ign limit (fun c => c) h ops)) = Some h' /\
+    h' <> live ign limit (fun c => c) h ops.
+Proof. exact redo_beyond_limit_trimmed_at_close. Qed.
+Print Assumptions C12_redo_beyond_limit_needs_invariant.
+
+(* Non-vacuity: three sessions with do, undo, redo, an ignored-only change and a trimmed entry. *)
+Example C12_example_sessions :
+  let ign := ign_of [[98%N]] in
+  let a := CCreate [97%N] RFile in let b := CCreate [98%N] RFile in
+  let c := CContents [97%N] [49%N] (Some []) in let m := CMove [97%N] RFile [99%N] in
+  let ss := [[SDo a; SDo b; SDo c]; [SUndo; SUndo; SRedo]; [SRedo; SDo m; SUndo]] in
+  within 2 empty_hist /\
+  live ign 2 (fun c => c) empty_hist (concat ss) = {| undo_list := [c]; redo_list := [m] |} /\
+  sessions ign 2 (fun c => c) (close true 2 empty_hist) ss =
+    Some (close true 2 {| undo_list := [c]; redo_list := [m] |}).
+Proof. exact (conj (le_S _ _ (le_S _ _ (le_n 0))) (conj eq_refl eq_refl)). Qed.
+Print Assumptions C12_example_sessions.
